@@ -48,7 +48,7 @@ func init() {
 			return core.Verdict{Status: "skip", Detail: "fallback", Features: feats}
 		}
 		basePlan := planString(c.Query, "none", c.Start, c.End)
-		tol := oracle.DefaultTol(Scale(c.Series))
+		tol := TolOf(c)
 		rewrote := false
 		evals := 1
 		for _, o := range optSets {
